@@ -18,8 +18,9 @@ SeqStart == 1   \* first value the (fake) global sequence delivers in a case
 
 V(cls, v) == [cls |-> cls, v |-> v]
 
-(* sharding values: two keys of one table, a key of another table, an unplaceable key (if the *)
-(* rule has one), the second spelling, and the forms the planner does not evaluate            *)
+(* sharding values: two keys of one table, a key of another table, unplaceable keys (below and  *)
+(* above everything configured, and inside a gap between configured periods if the layout has  *)
+(* one), the second spelling, and the forms the planner does not evaluate            *)
 Alphabet(C, sm, fm) ==
   LET T2 == {t \in Tables(C) : Cardinality(Holds(C, t)) >= 2}
       t1 == MinS(T2)
@@ -28,8 +29,10 @@ Alphabet(C, sm, fm) ==
       t3 == MinS(Tables(C) \ {t1})
       k3 == MaxS(Holds(C, t3))
       oor == {v \in Lits(C) : v >= 0 /\ Place(C, v) = NoTable}
+      gapk == {v \in oor : LitClass(C, v) = "gap-period"}
   IN  {V("int", k1), V("int", k2), V("int", k3), V("str", k3), V("null", 0), V("arith", k3), V("func", k3)}
-      \cup (IF oor = {} THEN {} ELSE {V("int", MinS(oor))})
+      \cup (IF oor = {} THEN {} ELSE {V("int", MinS(oor)), V("int", MaxS(oor))})      \* below / above everything configured
+      \cup (IF gapk = {} THEN {} ELSE {V("int", MinS(gapk))})                         \* inside an unconfigured period between two configured ones
       \cup (IF IsDate(C.type) THEN {} ELSE {V("neg", IF k3 > 0 THEN k3 ELSE k2)})
       \cup (IF fm = "values" /\ sm # "key" THEN {V("short", k3)} ELSE {})
       \cup (IF sm = "key" THEN {V("seq", 0)} ELSE {})
